@@ -99,6 +99,34 @@ int main(int argc, char **argv)
     if (g_jfd < 0) return 64;
     const QString subject = sc["subject"].toString(), config = sc["config"].toString(), appKind = sc["app"].toString(), stop = sc["stop"].toString();
 
+    // ---- earlier application objects (test binaries that build an application per test case, plug-in hosts): each one is created,
+    // logging goes asynchronous, messages are queued behind a slow sink, and the application object is destroyed without exec() -
+    // the stop then finishes the backlog itself. The scenario proper follows with a fresh application object (or none).
+    Subject s;
+    const QString subjectKind = subject;
+    auto makeSubjectEarly = [&] {
+        if (subjectKind == "bare") {
+            s.bare = new OwnThreadHandler<Pipeline>();
+            s.bare->append(FunctionHandlerPtr::create(sinkFn));
+        } else {
+            s.logger = subjectKind == "singleton" ? Logger::instance() : new Logger();
+            s.logger->handler(sinkFn);
+            s.logger->installMessageHandler();
+        }
+    };
+    if (config != "oneline" && sc["appCycles"].toInt() > 0) {
+        makeSubjectEarly();
+        for (int a = 0; a < sc["appCycles"].toInt(); a++) {
+            QCoreApplication *early = new QCoreApplication(argc, argv);
+            s.toOwnThread();
+            g_delayUs = 300;
+            for (int i = 0; i < sc["appCycleMsgs"].toInt(); i++) s.log();
+            delete early; // no exec(): the destroyed hook stops asynchronous logging with a backlog
+            g_delayUs = 0;
+            for (int i = 0; i < 2; i++) s.log(); // synchronous now
+        }
+    }
+
     QCoreApplication *heapApp = nullptr;
     // the stack application object lives in this optional-like buffer so that "return from main" destroys it before the statics
     struct StackApp { QCoreApplication app; StackApp(int &c, char **v) : app(c, v) { } };
@@ -106,20 +134,23 @@ int main(int argc, char **argv)
     if (appKind == "stack") stackApp.reset(new StackApp(argc, argv));
     else if (appKind == "heap") heapApp = new QCoreApplication(argc, argv); // leaked on purpose
 
-    Subject s;
     s.kind = subject;
-    if (subject == "bare") {
-        s.bare = new OwnThreadHandler<Pipeline>();
-        s.bare->append(FunctionHandlerPtr::create(sinkFn));
-    } else {
-        s.logger = subject == "singleton" ? Logger::instance() : new Logger();
-        if (config == "oneline") {
-            // documented one-liner: pretty -> stderr -> file, asynchronous by default; deliveries are read from the file
+    auto makeSubject = [&] {
+        if (s.bare || s.logger) return;
+        if (subject == "bare") {
+            s.bare = new OwnThreadHandler<Pipeline>();
+            s.bare->append(FunctionHandlerPtr::create(sinkFn));
         } else {
-            s.logger->handler(sinkFn);
-            s.logger->installMessageHandler();
+            s.logger = subject == "singleton" ? Logger::instance() : new Logger();
+            if (config == "oneline") {
+                // documented one-liner: pretty -> stderr -> file, asynchronous by default; deliveries are read from the file
+            } else {
+                s.logger->handler(sinkFn);
+                s.logger->installMessageHandler();
+            }
         }
-    }
+    };
+    makeSubject();
 
     // ---- earlier move/reset cycles with traffic in each phase ----
     g_delayUs = 0;
